@@ -242,6 +242,13 @@ def rule_ensure_templates(ctx):
         from .. import leaves as _lv
         cv, cr = _lv.canon_first(v), _lv.canon_first(ref)
         same = (commut(v) == commut(ref)) or (cv is not None and cv == cr)
+        if not same and cv is None and cr is None:
+            # no loop involved: the check is a decision over a few facts - compared as a function of them (`if a {..} else if b {..}`, a match
+            # on the pair (a, b), guard clauses)
+            try:
+                same = _lv.same_decision(_lv.leaves(_lv.lift(v)), _lv.leaves(_lv.lift(ref)))[0]
+            except Exception:
+                same = False
         ctx.add("TPL", "ensure:" + name, same, ctx.site(b),
                 "the check evaluates to the reference term (condition, operands, error variant)" if same else
                 "extracted term differs from the reference: %s" % sym.pretty(v, width=200)[:900], construct=v)
